@@ -11,6 +11,7 @@ import (
 
 	"github.com/openebs/jiva/replica"
 	"github.com/openebs/jiva/types"
+	"github.com/openebs/jiva/util"
 
 	"verif/harness/ea"
 )
@@ -29,6 +30,10 @@ type expect struct {
 	wr     [2]int     // sector range (off,n) of the write under test; n=0: the operation is not a write
 	lastRC *recovered // what the last check() saw after reopening
 }
+
+// SetLog: the logging settings before (written in the victim's set-up) and after the operation under test
+var setLogOld = util.LogToFile{Enable: true, MaxLogFileSize: 100, RetentionPeriod: 10, MaxBackups: 2}
+var setLogNew = util.LogToFile{Enable: false, MaxLogFileSize: 50, RetentionPeriod: 5, MaxBackups: 1}
 
 type verdict struct {
 	oracle string
@@ -63,17 +68,28 @@ func sameModelSet(ms []*ea.Model, m *ea.Model) bool {
 
 // recovered is what the real code shows after reopening a directory.
 type recovered struct {
-	chain []string
-	info  replica.Info
-	rev   int64
-	disks map[string]types.DiskInfo
-	live  []byte
+	logInfo *util.LogToFile // log.info as a starting replica process reads it (nil: no such file)
+	logErr  error
+	chain   []string
+	info    replica.Info
+	rev     int64
+	disks   map[string]types.DiskInfo
+	live    []byte
 }
 
 func (e *expect) reopen(dir string) (*recovered, error) {
 	inProc()
 	srv := replica.NewServer(addr, dir, 512, "")
 	rc := &recovered{}
+	// what app.startLoggingToFile does before anything else when a replica process starts: an existing log.info must
+	// be readable, or the process exits
+	if _, err := os.Stat(filepath.Join(dir, util.LogInfo)); err == nil {
+		lf, err := util.ReadLogInfo(dir)
+		rc.logInfo, rc.logErr = &lf, err
+		if err != nil {
+			return nil, fmt.Errorf("log.info exists but cannot be read (%v): a starting replica process exits on that", err)
+		}
+	}
 	err, _ := guard(func() error {
 		if e.create {
 			if err := srv.Create(int64(e.blocks) * ea.Block); err != nil {
@@ -242,6 +258,18 @@ func (e *expect) judge(dir string, rc *recovered, mode string, st *ostats) *verd
 	if !revs[rc.rev] {
 		return &verdict{"revision-counter-" + mode, fmt.Sprintf("revision counter after reopen %d; before the operation %d, after it %d", rc.rev, e.rev0, e.rev1)}
 	}
+	// log.info (SetLogging): the old or the new settings, by mode
+	if e.op[0] == "SetLog" {
+		got := -1
+		if rc.logInfo != nil {
+			got = rc.logInfo.MaxLogFileSize
+		}
+		okOld, okNew := got == setLogOld.MaxLogFileSize, got == setLogNew.MaxLogFileSize
+		switch {
+		case mode == "crash" && !okOld && !okNew, mode == "old" && !okOld, mode == "new" && !okNew:
+			return &verdict{"log-info-" + mode, fmt.Sprintf("log.info after reopen holds maxlogfilesize=%d; before the operation %d, after it %d", got, setLogOld.MaxLogFileSize, setLogNew.MaxLogFileSize)}
+		}
+	}
 	// attributes kept in volume.meta
 	attrOK := false
 	for _, m := range cands {
@@ -402,6 +430,8 @@ func opClass(op string) string {
 		return "Resize"
 	case "CloneInfo":
 		return "UpdateCloneInfo"
+	case "SetLog":
+		return "SetLogging"
 	case "Checkpoint":
 		return "SetCheckpoint"
 	case "Rebuild":
